@@ -3,6 +3,7 @@ package main
 import (
 	"fmt"
 	"math/rand"
+	"os"
 	"runtime"
 	"strings"
 	"sync"
@@ -92,7 +93,7 @@ func runStress(cfg stressCfg) (res stressResult) {
 	res.Cfg = cfg
 	before := idSet(gdump.Snapshot())
 	curGate.Store(nil)
-	jit := &jitterT{seed: uint64(cfg.Seed)<<20 + uint64(cfg.Run), sleep: cfg.Race}
+	jit := &jitterT{seed: uint64(cfg.Seed)<<20 + uint64(cfg.Run), sleep: false} // no timers: a sleeping goroutine shows up as [semacquire] in -race builds and would pass for parked
 	curJitter.Store(jit)
 	defer curJitter.Store(nil)
 
@@ -250,6 +251,13 @@ func runStress(cfg stressCfg) (res stressResult) {
 	stuckSubs := subsLeft.Load()
 	stuckWhere := ""
 	if stuckSubs > 0 {
+		if dbg := os.Getenv("C16_DEBUG_DIR"); dbg != "" {
+			var b strings.Builder
+			for _, g := range gs0 {
+				b.WriteString(g.Raw + "\n\n")
+			}
+			os.WriteFile(fmt.Sprintf("%s/stuck-%d-%d.txt", dbg, os.Getpid(), cfg.Run), []byte(b.String()), 0o644)
+		}
 		for _, g := range gs0 {
 			if !before[g.ID] && g.Has("workerpool.(*WorkerPool).Submit") && !g.Has("workerpool.(*Task).run") {
 				stuckWhere += fmt.Sprintf("[%s: %s] ", g.State, strings.Join(g.Frames[:min(5, len(g.Frames))], " < "))
